@@ -748,9 +748,13 @@ func (b *Block) SetPrevBlockVerificationTickets(bvt []*VerificationTicket) {
 
 // Clone returns a clone of the block instance
 func (b *Block) Clone() *Block {
+	b.ticketsMutex.RLock()
+	vts := copyVerificationTickets(b.VerificationTickets)
+	b.ticketsMutex.RUnlock()
+
 	clone := &Block{
 		UnverifiedBlockBody: *b.UnverifiedBlockBody.Clone(),
-		VerificationTickets: copyVerificationTickets(b.VerificationTickets),
+		VerificationTickets: vts,
 		HashIDField:         b.HashIDField,
 		Signature:           b.Signature,
 		ChainID:             b.ChainID,
